@@ -684,8 +684,8 @@ CLASS_FEATURES: dict = {
     "C11.nested": ("nb", "w", "ic", "oc", "xkind", "res"),
     # the route by which the document reached the VARIANT column / the engine; esc = which escapes its text needs
     "C11.route": ("route", "op", "kind", "esc"),
-    # one session, statements differing in letter case only: what varies, written shape, op, first / later statement
-    "C11.session": ("vary", "fc", "op", "pos"),
+    # one session, statements differing in letter case only: what varies, written shape, first / later statement of a session
+    "C11.session": ("vary", "fc", "pos"),
 }
 
 
@@ -1974,12 +1974,22 @@ def _fval_run(acc, tier, inp, plan):
                 exps = judge_row(key, i)  # [(expected, element)]
                 rr = per_id[i]
                 if not ordered and rr[0] == "ok" and len(rr[1]) == len(exps):
-                    rest = list(rr[1])
-                    arranged = []
-                    for exp, _el in exps:  # pair every expected value with an equal fetched one, if there is one
-                        j = next((n for n, g in enumerate(rest) if J.matches(mode, exp, g)), 0)
-                        arranged.append(rest.pop(j))
-                    rr = ("ok", tuple(arranged))
+                    # pair every expected value with an equal fetched one: first the one at its own position, then any
+                    # other that is still free; what cannot be paired keeps the order it came in (so that a wrong value is
+                    # attributed to the element it belongs to whenever the rows did come in element order)
+                    got_i = rr[1]
+                    pair = {n: n for n, (exp, _el) in enumerate(exps) if J.matches(mode, exp, got_i[n])}
+                    free = [n for n in range(len(got_i)) if n not in pair.values()]
+                    for n, (exp, _el) in enumerate(exps):
+                        if n not in pair:
+                            j = next((m for m in free if J.matches(mode, exp, got_i[m])), None)
+                            if j is not None:
+                                pair[n] = j
+                                free.remove(j)
+                    for n in range(len(exps)):
+                        if n not in pair:
+                            pair[n] = free.pop(0)
+                    rr = ("ok", tuple(got_i[pair[n]] for n in range(len(exps))))
                 sig.append((i, rr[0], rr[1]))
                 whole = rr[0] == "ok" and len(rr[1]) == len(exps)
                 row_ok = True
